@@ -273,6 +273,8 @@ var srcHandles = map[string]srcHandle{
 	"Emb":                       srcOf[Emb]{},
 	"*Emb":                      srcOf[*Emb]{},
 	"map[string]Emb":            srcOf[map[string]Emb]{},
+	"Emb2":                      srcOf[Emb2]{},
+	"*Emb2":                     srcOf[*Emb2]{},
 	// opaque leaf types (arrays, slices): direct oracle only, not in the model's universe
 	"map[string][2]int":  srcOf[map[string][2]int]{},
 	"map[string]*[2]int": srcOf[map[string]*[2]int]{},
@@ -305,6 +307,9 @@ var tgtHandles = map[string]tgtHandle{
 	"map[string]Emb":            tgtOf[map[string]Emb]{},
 	"map[string]*Emb":           tgtOf[map[string]*Emb]{},
 	"EmbU":                      tgtOf[EmbU]{},
+	"Emb2":                      tgtOf[Emb2]{},
+	"*Emb2":                     tgtOf[*Emb2]{},
+	"map[string]Emb2":           tgtOf[map[string]Emb2]{},
 	"[2]int":                    tgtOf[[2]int]{},
 	"*[2]int":                   tgtOf[*[2]int]{},
 	"[]int":                     tgtOf[[]int]{},
